@@ -481,7 +481,7 @@ def soup_vocab(tables):
          "-exec", "-execdir", "-ok", "-okdir", "-delete", "-name", "exec", "run", "compose", "container", "pod", "c", "-it", "-i", "-e", "-u", "-w", "--env=A=1",
          "-h", "--help", "--version", "help", "", "it's", "a b", "-Hx", "-Hxls", "--exec=ls", "--exec-batch=rm", "-xrm", "-n", "-I", "-I{}", "-i", "-0", "-p",
          "--interactive", "--open-tty", "--max-args=1", "-E", "-e", "-l", "-t", "-q", "/dev/null", "-p", "-dis", "-arch", "arm64", "--python", "-D", "--debug",
-         "-l", "debug", "--detach-keys", "-uroot", "-d", "--kubeconfig", "-f", "--namespace", "ns", "-o"]
+         "-l", "debug", "--detach-keys", "-uroot", "-d", "--kubeconfig", "-f", "--namespace", "ns", "-o", "--to-command", "--to-command=ls", "--to-command=", "--to-command=rm x", "-tf"]
     for t in tables:
         v += t
     return sorted(set(v))
